@@ -455,9 +455,10 @@ def cases(ctx):
         m = frame(rng, bits, df=21)
         yield dict(op="is44 " + m, real=(ISFN["BDS44"][1], [m]), tag="thr-temp44", trivial=True)
     # --- DF20 altitude cross-check (float): model vs real, away from the 20 kt threshold
-    for _ in range(ctx.n(500, 10000)):
+    edge_alts = [0, 1, 2, 38, 39, 40, 41, 42, 80, 2047]   # -1000 ft ... exactly 0 ft (N = 40) ... top of the range
+    for it in range(ctx.n(500, 10000)):
         ias, mach = rng.randrange(100, 450), rng.randrange(50, 250)
-        alt_n = rng.randrange(40, 1800)
+        alt_n = edge_alts[it % len(edge_alts)] if it < 12 * len(edge_alts) else rng.randrange(40, 1800)
         code = spec.val_of(spec.bits_of(alt_n, 11)[:6] + [0] + [spec.bits_of(alt_n, 11)[6]] + [1] + spec.bits_of(alt_n, 11)[7:])
         m = frame(rng, mb([(13, 1, 1), (14, 10, ias), (24, 1, 1), (25, 10, mach)]), df=20, alt13=code)
         from pyModeS.extra import aero
